@@ -53,17 +53,17 @@ func replayCallLayer(f []string) string {
 	return "bad-op"
 }
 
-// causeKind canonicalises an error of the real code to the `Cause` enum of Basic.lean.
-func causeKind(err error) string {
+// filterCauseKind canonicalises an error of the real code to the `Cause` enum of Basic.lean.
+func filterCauseKind(err error) string {
 	switch e := err.(type) {
 	case values.TypeError:
 		return "typeErr"
 	case expressions.UndefinedFilter:
 		return "undefinedFilter"
 	case expressions.FilterError:
-		return "filterErr:" + causeKind(e.Err)
+		return "filterErr:" + filterCauseKind(e.Err)
 	case *expressions.FilterError:
-		return "filterErr:" + causeKind(e.Err)
+		return "filterErr:" + filterCauseKind(e.Err)
 	case *values.CallParityError:
 		return "parity"
 	case expressions.InterpreterError:
@@ -128,7 +128,7 @@ func filterCase(name string, recv *V, args []*V) string {
 	case panicked:
 		return "panic"
 	case err != nil:
-		return "err " + causeKind(err)
+		return "err " + filterCauseKind(err)
 	}
 	return guard(func() string { return "ok " + Reify(out).Enc() })
 }
@@ -148,7 +148,7 @@ func convCase(ty string, v *V) string {
 	return guard(func() string {
 		out, err := values.Convert(v.Realise(), paramTypes[ty])
 		if err != nil {
-			return "err " + causeKind(err)
+			return "err " + filterCauseKind(err)
 		}
 		return "ok " + Reify(out).Enc()
 	})
@@ -164,7 +164,7 @@ func wobjCase(v *V) string {
 	return guard(func() string {
 		out, err := stdEngine.ParseAndRenderString("{{ x }}", map[string]any{"x": v.Realise()})
 		if err != nil {
-			return "err " + causeKind(err.Cause())
+			return "err " + filterCauseKind(err.Cause())
 		}
 		return "ok " + hexField(out)
 	})
@@ -176,7 +176,7 @@ var numericFilterNames = []string{"abs", "ceil", "floor", "plus", "minus", "time
 var callLayerFilterNames = append(append([]string{}, numericFilterNames...), "default", "size")
 
 // nparams (receiver included) of the filters whose bodies the call-layer model implements
-var filterArity = map[string]int{"abs": 1, "ceil": 1, "floor": 1, "plus": 2, "minus": 2, "times": 2, "divided_by": 2,
+var numFilterArity = map[string]int{"abs": 1, "ceil": 1, "floor": 1, "plus": 2, "minus": 2, "times": 2, "divided_by": 2,
 	"modulo": 2, "round": 2, "default": 2, "size": 1}
 
 func smallArgUniverse() []*V {
@@ -209,7 +209,7 @@ func filterStream(r *Run) {
 	for _, name := range callLayerFilterNames {
 		for _, recv := range full {
 			emit(name, recv)
-			if filterArity[name] >= 2 {
+			if numFilterArity[name] >= 2 {
 				for _, a := range small {
 					emit(name, recv, a)
 				}
@@ -218,7 +218,7 @@ func filterStream(r *Run) {
 	}
 	// arity: one and two arguments too many; unknown filters
 	for _, name := range callLayerFilterNames {
-		n := filterArity[name]
+		n := numFilterArity[name]
 		for extra := 0; extra <= 2; extra++ {
 			args := []*V{}
 			for i := 0; i < n-1+extra; i++ {
@@ -243,9 +243,9 @@ func filterStream(r *Run) {
 		if g.Chance(50) {
 			recv = randomNumberV(g)
 		}
-		nargs := g.Intn(filterArity[name] + 1)
+		nargs := g.Intn(numFilterArity[name] + 1)
 		if g.Chance(70) {
-			nargs = filterArity[name] - 1
+			nargs = numFilterArity[name] - 1
 		}
 		args := make([]*V, nargs)
 		for k := range args {
